@@ -148,6 +148,8 @@ class SymEval:
             return v
         if isinstance(v, (int, float)):
             return v
+        if type(v).__name__ == 'NPArray':
+            return self.to_array(list(v))
         if isinstance(v, (list, tuple)):
             return [self.pyconst(x) for x in v]
         if isinstance(v, dict):
@@ -726,6 +728,9 @@ class SymEval:
             if isinstance(b, (list, tuple)) and isinstance(a, (str, int)):
                 r = a in b
                 return r if isinstance(op, ast.In) else not r
+            if isinstance(b, Rec) and isinstance(a, str):
+                r = a in b.cols
+                return r if isinstance(op, ast.In) else not r
             return UNK
         if isinstance(a, str) or isinstance(b, str):
             if isinstance(a, str) and isinstance(b, str):
@@ -771,6 +776,22 @@ class SymEval:
 
     def e_List(self, node, env):
         return [self.eval(e, env) for e in node.elts]
+
+    def e_ListComp(self, node, env):
+        if len(node.generators) != 1 or node.generators[0].ifs:
+            raise Unsupported('comprehension form')
+        g = node.generators[0]
+        it = self.eval(g.iter, env)
+        if not isinstance(it, (list, tuple, range)):
+            raise Unsupported('comprehension over %r' % (it,))
+        out = []
+        e2 = dict(env)
+        for v in it:
+            self.assign(g.target, v, e2, node)
+            out.append(self.eval(node.elt, e2))
+        return out
+
+    e_GeneratorExp = e_ListComp
 
     def e_JoinedStr(self, node, env):
         return Opaque('fstring')
@@ -976,6 +997,8 @@ class SymEval:
             base[idx] = v
             return
         if isinstance(base, Opaque):
+            if self.hooks is not None and hasattr(self.hooks, 'store'):
+                self.hooks.store(self, base, idx, v, node)
             return
         raise Unsupported('store into %r' % (base,))
 
@@ -1210,6 +1233,11 @@ class SymEval:
         if q in ('builtins.min', 'builtins.max'):
             return Opaque(q, *args)
         if q == 'builtins.all' or q == 'builtins.any':
+            v = args[0] if args else None
+            if isinstance(v, (list, tuple)):
+                ts = [self.truth(x) for x in v]
+                if all(t is not None for t in ts):
+                    return all(ts) if q.endswith('all') else any(ts)
             return UNK
         if q == 'builtins.bool':
             return self.truth(args[0])
